@@ -43,6 +43,8 @@ type sutOpts struct {
 	inactivity     time.Duration // 0 = off
 	tokenDuration  time.Duration
 	acr            string
+	acrSupported   []string // what the provider's discovery document advertises (nil = the two idporten-loa values)
+	locSupported   []string
 	autoLogin      bool
 	ignorePaths    []string
 	includeIDToken bool
@@ -153,6 +155,7 @@ func newSut(o sutOpts) *sut {
 	// the provider half of the OpenID configuration comes from the REAL discovery code path: NewProviderConfig fetches and decodes the fake provider's
 	// well-known document (no hand-filled ProviderMetadata), so SidClaimRequired, the iss-parameter flag, the PAR endpoint etc. are what the decoder yields
 	s.idp.discoIssParam, s.idp.discoPar = o.issParam, o.par
+	s.idp.acrSupported, s.idp.locSupported = o.acrSupported, o.locSupported
 	s.cfg.OpenID.WellKnownURL = s.idp.srv.URL + "/.well-known/openid-configuration"
 	prov, err := openidconfig.NewProviderConfig(s.cfg)
 	if err != nil {
